@@ -64,6 +64,14 @@ def configs(tier, seed):
     out.append({"fam": "bridge", "cfg": {"aw": 5, "dw": 8, "regs": [{"name": "a__b", "w": 8, "scope": []},
                                                                     {"name": "b", "w": 8, "scope": [["c", "a"]]}]}})
     out.append({"fam": "bridge", "cfg": {"aw": 5, "dw": 8, "regs": [{"name": "r", "w": 8, "scope": [["i", 0]]}]}})
+    # names that differ only in where an index sits relative to a digit-terminated part (distinct under "__".join)
+    out.append({"fam": "bridge", "cfg": {"aw": 5, "dw": 8, "regs": [{"name": "ctrl", "w": 8, "scope": [["c", "bank"], ["i", 1]]},
+                                                                    {"name": "ctrl", "w": 8, "scope": [["c", "bank1"]]}]}})
+    out.append({"fam": "bridge", "cfg": {"aw": 5, "dw": 8, "regs": [{"name": "cfg", "w": 8, "scope": [["c", "lane"], ["i", 1], ["i", 2]]},
+                                                                    {"name": "cfg", "w": 8, "scope": [["c", "lane"], ["i", 12]]}]}})
+    out.append({"fam": "bridge", "cfg": {"aw": 5, "dw": 8, "regs": [{"name": "x", "w": 8, "scope": [["c", "a"], ["i", 0]]},
+                                                                    {"name": "x", "w": 8, "scope": [["c", "a0"]]},
+                                                                    {"name": "a_0_x", "w": 8, "scope": []}]}})
     # multiplexers whose map was probed (decode_address) before the registers were added, registers added late
     for i in range(6 if tier == "quick" else 30):
         regs = [{"w": rnd.choice([8, 12, 24]), "acc": rnd.choice(["r", "rw"]), "addr": a}
@@ -144,6 +152,15 @@ def _violation(out, item, key, what, extra=None):
     mark_violation(key)
     out.violations.append(dict({"key": key, "what": what, "query": key.split(":")[0], "cfg": item, "stimulus": [],
                                 "prefix": 0, "k": 0, "detail": {}}, **(extra or {})))
+
+
+def _known_bridge_collision(item):
+    """The recorded finding D6 is exactly: a register named 'mux', or two register names that collide under the
+    '__'.join(str(part)) flattening.  Any other NameError from Bridge.elaborate is a different violation."""
+    if item.get("fam") != "bridge":
+        return False
+    flat = ["__".join([str(v) for _, v in r["scope"]] + [r["name"]]) for r in item["cfg"]["regs"]]
+    return "mux" in flat or len(set(flat)) != len(flat)
 
 
 def _site(exc):
@@ -238,7 +255,10 @@ def check(item, out, stats):
             if isinstance(e, Unsupported):
                 raise
             kind = "internal-error" if n == 1 else "re-elaborate"
-            return _violation(out, item, f"{kind}:{name}:{type(e).__name__}:{_site(e)}",
+            key = f"{kind}:{name}:{type(e).__name__}:{_site(e)}"
+            if type(e).__name__ == "NameError" and item.get("fam") == "bridge" and not _known_bridge_collision(item):
+                key += ":names-distinct-under-__join"
+            return _violation(out, item, key,
                               f"C19 elaboration #{n} of {name} failed with {type(e).__name__}: {str(e)[:100]} "
                               f"({cfg_key(item)})", {"elab": n})
         except RecursionError as e:
